@@ -409,20 +409,22 @@ def seat_check(prop, tier, seed, work, replay):
             print("MODEL-NOTE: clauses of %s violated in the MODEL (%s): not a verdict (R1)" % (prop, m["violated"]))
 
     d = work.sub("seat")
+    # (file names sort cheap sources first: the representative of a failing signature - the run that is replayed from
+    # scratch - is taken from the corpus / a script before an exploration that takes minutes to repeat)
     files = {}
     stats = {}
     for mx, pl, extra in T["explore"]:
-        f = os.path.join(d, "explore%d.ndjson" % mx)
+        f = os.path.join(d, "d_explore%d.ndjson" % mx)
         args = ["seat-explore", "-max", mx, "-players", pl] + extra
         stats["explore%d" % mx] = vlib.drive(binary, args + ["-o", f], timeout=3600)
         files[f] = dict(kind="seat-explore", args=[str(a) for a in args])
     # larger tables: the implementation's graph up to player identities (the manager never looks at them)
     for mx, extra in T["anon"]:
-        f = os.path.join(d, "anon%d.ndjson" % mx)
+        f = os.path.join(d, "e_anon%d.ndjson" % mx)
         args = ["seat-explore", "-max", mx, "-players", mx + 1, "-anon", "-fork", "snapshot", "-seed", seed] + extra
         stats["anon%d" % mx] = vlib.drive(binary, args + ["-o", f], timeout=3600)
         files[f] = dict(kind="seat-explore", args=[str(a) for a in args])
-    f = os.path.join(d, "random.ndjson")
+    f = os.path.join(d, "b_random.ndjson")
     scr = os.path.join(d, "random.scripts")
     stats["random"] = vlib.drive(binary, ["seat-random", "-runs", T["random_runs"], "-steps", T["steps"], "-seed", seed, "-o", f, "-scripts", scr])
     files[f] = dict(kind="seat-script", scripts=scr)
@@ -430,13 +432,13 @@ def seat_check(prop, tier, seed, work, replay):
     # (corpus/seat/README), replayed with a late-joiner run behind every script that ends with an empty seat in the blinds zone
     corpus = os.path.join(vlib.VERIF, "corpus", "seat", "all.ndjson")
     if os.path.exists(corpus):
-        f = os.path.join(d, "corpus.ndjson")
+        f = os.path.join(d, "a_corpus.ndjson")
         cargs = ["seat-replay", "-scripts", corpus, "-latejoin"]
         stats["corpus"] = vlib.drive(binary, cargs + ["-o", f])
         files[f] = dict(kind="seat-driver", args=cargs)
     simf = os.path.join(d, "sim.scripts")
     nsim = seat_sim_scripts(work, T["sim_num"], seed, simf)
-    f = os.path.join(d, "sim.ndjson")
+    f = os.path.join(d, "c_sim.ndjson")
     scr2 = os.path.join(d, "sim.out.scripts")
     stats["sim"] = vlib.drive(binary, ["seat-replay", "-scripts", simf, "-o", f, "-out-scripts", scr2])
     files[f] = dict(kind="seat-script", scripts=scr2)
